@@ -85,6 +85,13 @@ def run_case(case, rng):
         q0desc = q0c
     else:
         tbl = {(s, a): rng.choice([0.0, 1.0, -1.0, 3.0, 0.5]) for s in sp.states for a in sp.acts[s]}
+        if eps == 0.0 and temp == 0.0:
+            # a heuristic that rules an action out: -inf for one action of a state (never taken by a greedy learner; with a
+            # softmax temperature the library's expectation computes 0 * -inf = nan on the unchanged tree - outside C10's
+            # "rewards / values of either sign", not used here)
+            for s_ in sp.states:
+                if len(sp.acts[s_]) >= 2 and s_ not in sp.flag and rng.random() < 0.3:
+                    tbl[(s_, rng.choice(list(sp.acts[s_])))] = float("-inf")
         initial_q = lambda s, a: tbl[(s, a)]
         q0 = initial_q
         q0desc = "callable"
@@ -124,7 +131,7 @@ def run_case(case, rng):
             row = dict.__getitem__(live, s)
             ref = shadow.row(s)
             for a, v in row.items():
-                if not (a in ref and abs(v - ref[a]) <= 1e-12 * max(1.0, abs(ref[a]))):
+                if not (a in ref and (v == ref[a] or abs(v - ref[a]) <= 1e-12 * max(1.0, abs(ref[a])))):
                     case.fail("online:live-Q-table-differs-from-update-rule",
                               f"{label} step {state['steps']}: q[{s!r}][{a!r}]={v!r} shadow={ref.get(a)!r}",
                               absorbing_state=bool(s in sp.flag), **facts)
@@ -194,7 +201,7 @@ def run_case(case, rng):
                 target = r + gamma * nrow[na]
             else:
                 d = eps_softmax(nrow)
-                target = r + gamma * sum(nrow[x] * p for x, p in d.items())
+                target = r + gamma * sum(nrow[x] * p for x, p in d.items() if p > 0)
             row[a] = row[a] + alpha * (target - row[a])
             compare_tables(q, sh1, "q")
 
@@ -254,7 +261,7 @@ def run_case(case, rng):
         else:
             ref = sh1.row(s)
         for a, v in row.items():
-            case.check(a in ref and abs(v - ref[a]) <= 1e-12 * max(1.0, abs(ref[a])), "final-q_values!=rule-folded-over-experience",
+            case.check(a in ref and (v == ref[a] or abs(v - ref[a]) <= 1e-12 * max(1.0, abs(ref[a]))), "final-q_values!=rule-folded-over-experience",
                        lambda: f"q[{s!r}][{a!r}]={v!r} shadow={ref.get(a)!r}", absorbing_state=bool(s in sp.flag), **facts)
             if s in sp.flag:
                 case.check(v == 0.0, "absorbing-state-Q!=0", f"q[{s!r}][{a!r}]={v!r}", absorbing_state=True,
